@@ -35,3 +35,18 @@ package external
 //@   trusted
 //@   modifies nothing
 //@   ensures result1 == nil && result0 != nil && result0.Meta != nil ==> result0.Meta.StartKey < key && result0.Meta.EndKey == key
+
+// The timestamp oracle's expiry clock (assumed): UntilExpired answers <= 0 once the lock's time-to-live has elapsed on
+// this oracle's clock; the ghost flag sawExpired of package txnlock records that such an answer was given.
+//@ package github.com/tikv/client-go/v2/oracle
+//@ func (Oracle) UntilExpired
+//@   trusted
+//@   modifies Oracle.sawExpired of recv
+//@   ensures result <= 0 ==> recv.sawExpired
+//@   ensures result > 0 ==> recv.sawExpired == old(recv.sawExpired)
+
+// An issued timestamp is never the maximum timestamp (assumed: the maximum is reserved as "read the latest" / "expire now").
+//@ func (Oracle) GetLowResolutionTimestamp
+//@   trusted
+//@   modifies nothing
+//@   ensures result1 == nil ==> result0 < 18446744073709551615
